@@ -206,6 +206,11 @@ def shownDT (u : UnitOps DT) (mu : Option String) (dt' : DT) : DT :=
   | some m => u.setMainUnit m dt'
   | none => dt'
 
+/-- hypothesis of `main_unit_applied`, checked by the driver on every case: the parameter called `value`, if any, has
+a datatype to start from -/
+def valueTypedB (ops : Ops DT Val) (c : ClassDesc DT Val) (cfg : Cfg Val) : Bool :=
+  c.params.all fun pd => pd.name != "value" || (startOf ops c cfg pd).isSome
+
 /-! ## what is observed on the implementation -/
 
 structure ObsParam (DT Val : Type) where
